@@ -1859,6 +1859,64 @@ fn main() {
                 }
                 format!("{{\"agree\":{},\"detail\":{:?}}}", agree, detail)
             }
+            // typed_hostile: symbols / strings a peer may put into typed protocol items, with multi-byte characters at every
+            //   byte offset: error conditions inside close / end / detach / rejected, decoded by both readers under
+            //   catch_unwind. Any panic is a failure (an error is fine).
+            "typed_hostile" => {
+                use fe2o3_amqp_types::performatives::{Close, Detach, End};
+                fn sym(s: &str) -> Vec<u8> {
+                    let mut v = vec![0xa3, s.len() as u8];
+                    v.extend_from_slice(s.as_bytes());
+                    v
+                }
+                fn error_list(cond: &str) -> Vec<u8> {
+                    // described list: amqp:error:list (0x1d) { condition }
+                    let c = sym(cond);
+                    let mut v = vec![0x00, 0x53, 0x1d, 0xc0, (c.len() + 1) as u8, 0x01];
+                    v.extend_from_slice(&c);
+                    v
+                }
+                fn perf(code: u8, fields_before: &[u8], err: &[u8]) -> Vec<u8> {
+                    let n = fields_before.iter().filter(|_| true).count();
+                    let _ = n;
+                    let mut body = Vec::new();
+                    body.extend_from_slice(fields_before);
+                    body.extend_from_slice(err);
+                    let count = (if fields_before.is_empty() { 0 } else { 2 }) + 1;
+                    let mut v = vec![0x00, 0x53, code, 0xc0, (body.len() + 1) as u8, count as u8];
+                    v.extend_from_slice(&body);
+                    v
+                }
+                let mut panics = 0usize;
+                let mut cases = 0usize;
+                let prefixes = ["", "a", "am", "amq", "amqp", "amqp:", "amqp:i", "amqp:link:", "amqp:session:w", "amqp:connection:"];
+                for pre in prefixes.iter() {
+                    for wide in ["\u{e9}", "\u{20ac}", "\u{1f600}"] {
+                        let cond = format!("{}{}:fault", pre, wide);
+                        let e = error_list(&cond);
+                        let inputs = vec![
+                            perf(0x18, &[], &e),                 // close { error }
+                            perf(0x17, &[], &e),                 // end { error }
+                            perf(0x16, &[0x43, 0x41], &e),       // detach { handle 0, closed true, error }
+                        ];
+                        for (k, bytes) in inputs.iter().enumerate() {
+                            cases += 1;
+                            let b2 = bytes.clone();
+                            let r = std::panic::catch_unwind(move || {
+                                match k {
+                                    0 => { let _ = serde_amqp::from_slice::<Close>(&b2); let _ = serde_amqp::from_reader::<Close>(&b2[..]); }
+                                    1 => { let _ = serde_amqp::from_slice::<End>(&b2); let _ = serde_amqp::from_reader::<End>(&b2[..]); }
+                                    _ => { let _ = serde_amqp::from_slice::<Detach>(&b2); let _ = serde_amqp::from_reader::<Detach>(&b2[..]); }
+                                }
+                            });
+                            if r.is_err() {
+                                panics += 1;
+                            }
+                        }
+                    }
+                }
+                format!("{{\"cases\":{},\"panics\":{}}}", cases, panics)
+            }
             "framedec" => {
                 use bytes::BytesMut;
                 use tokio_util::codec::Decoder;
